@@ -95,9 +95,14 @@ async def run_batch(rep, case, sub):
     await rig.start()
     try:
         port = rig.ports[0]
-        for f in case["datagrams"]:
-            await rig.send(port, refb.encode(f, salt=case.get("salt", 2)))
-        dead = await rig.barrier()
+        dead = None
+        try:
+            for f in case["datagrams"]:
+                await rig.send(port, refb.encode(f, salt=case.get("salt", 2)))
+        except udptx.DeliveryStopped as exc:
+            dead = exc.ports
+        if dead is None:
+            dead = await rig.barrier()
     finally:
         await rig.stop()
     fam = refb.MODELS[case["datagrams"][0]["model"]][0] if case["datagrams"] else "none"
